@@ -313,6 +313,9 @@ func runC26(planAny any, cfg simrt.Config) *simkit.Outcome {
 	var w *world
 	var invalidations, cacheAccepts int64
 	steps := 0
+	type wallSample struct{ sim, wall int64 }
+	var samples []wallSample   // receiver wall clock at op boundaries (it is monotonic in between)
+	var backSteps []wallSample // backward receiver clock steps: sim time, size (negative)
 	res := simrt.Run(cfg, func() {
 		hub := simrt.NodeOf("hub")
 		hubWall := func() int64 { return cfg.EpochNs + simrt.SimNow() + hub.WallOffset }
@@ -352,6 +355,7 @@ func runC26(planAny any, cfg simrt.Config) *simkit.Outcome {
 			if o.RefMsg < 0 || o.RefMsg >= len(p.Msgs) {
 				continue
 			}
+			samples = append(samples, wallSample{simrt.SimNow(), hubWall()})
 			switch o.Op {
 			case "wait":
 				d := refDur(o)
@@ -360,8 +364,13 @@ func runC26(planAny any, cfg simrt.Config) *simkit.Outcome {
 			case "step":
 				d := refDur(o)
 				if d != 0 {
+					samples = append(samples, wallSample{simrt.SimNow(), hubWall()})
 					simrt.StepWall(hub, d)
 					steps++
+					if d < 0 {
+						backSteps = append(backSteps, wallSample{simrt.SimNow(), int64(d)})
+					}
+					samples = append(samples, wallSample{simrt.SimNow(), hubWall()})
 				}
 			case "until":
 				ms := st[o.RefMsg]
@@ -500,14 +509,38 @@ func runC26(planAny any, cfg simrt.Config) *simkit.Outcome {
 				}
 			}
 		}
-		if len(acc) >= 2 {
-			a1, a2 := acc[0], acc[1]
+		sort.SliceStable(acc, func(i, j int) bool { return acc[i].startSim < acc[j].startSim })
+		for k := 0; k+1 < len(acc); k++ {
+			a1, a2 := acc[k], acc[k+1]
+			// A backward step of the receiver's clock un-ages timestamps. No finite
+			// retention survives that: once the clock has legitimately passed the
+			// configured retention of the entry and is then set back, the fault - not
+			// arc - permits the second accept. Anything else stays a violation.
+			backward, peak := false, a2.startWall
+			for _, b := range backSteps {
+				if b.sim >= a1.endSim && b.sim <= a2.startSim {
+					backward = true
+				}
+			}
+			for _, sm := range samples {
+				if sm.sim >= a1.endSim && sm.sim <= a2.startSim && sm.wall > peak {
+					peak = sm.wall
+				}
+			}
+			if backward && peak-a1.startWall >= ttl {
+				out.Stats["probe.double_accept_excused_by_backward_clock_step"]++
+				continue
+			}
 			circ := ""
 			switch {
 			case a2.startSim < a1.endSim && a1.startSim < a2.endSim:
 				circ = "concurrent-duplicates"
+			case a2.endWall-a1.startWall >= ttl && a2.startWall-ms.rq.ts*int64(time.Second) > int64(max(a2.tol, calib.types[typ].Tol)):
+				// the replay arrived in the last (partial) second in which the
+				// second-granular freshness check still passes
+				circ = "nonce-retention-expired-in-final-truncated-second"
 			case a2.endWall-a1.startWall >= ttl:
-				circ = "after-nonce-retention-expired"
+				circ = "nonce-retention-expired-inside-window"
 			default:
 				circ = "within-nonce-retention"
 			}
